@@ -526,7 +526,7 @@ let run_dec ?(final = false) (pd : string) (su : string) (lm : string) (hex : st
   ^ (if lm <> "0" then " #log " ^ String.concat " ; " log else "")
 
 (* C14: the same stream decoded through the bufio machine (Model/Bufio.v), the input cut into the
-   chunks of the schedule (zero-length reads are outside the L1 model and skipped) *)
+   chunks of the schedule (a size 0 is a zero-length Read result: an empty chunk) *)
 let run_dec_chunk (pd : string) (su : string) (sched : string) (hex : string) : string =
   let cfg = cfg_of pd su "0" in
   let data = bytes_of_hex hex in
@@ -541,7 +541,7 @@ let run_dec_chunk (pd : string) (su : string) (sched : string) (hex : string) : 
     | [] -> []
     | _ ->
       (match sizes with
-       | 0 :: t -> cut t last l
+       | 0 :: t -> [] :: cut t last l
        | k :: t -> let (a, r) = take k l in a :: cut t k r
        | [] -> if repeat && last > 0 then (let (a, r) = take last l in a :: cut [] last r) else [l]) in
   let src = cut sizes 0 data in
